@@ -10,6 +10,18 @@ TRUST = ("z3 5.1.0 (thorough tier cross-checks every decided query with cvc5 1.4
          "semantics of the kernels; the stubs listed in the evidence file")
 
 CHECKS = {
+    "C14": dict(
+        text="(1) The real StructureFunction.get_esf runs after a symbolic history of up to two earlier requests (symbolic kinematic "
+             "values, BOTH key orders of the kinematics dict, both use_raw flags, TMC on/off); tuple-key equality inside the dict "
+             "lookup is a solver decision, all hit/miss paths are explored and z3 proves the returned object carries the requested "
+             "x, Q2 and TMC-ness. (2) The real Runner.get_result on up to four elements with symbolic Q2: every ordering and tie "
+             "is a solver-feasible path of sorted(); output[name][i] is the result of elements[i], unplanned observables do not "
+             "leak. (3) compute_raw / n3lo.interpolator memos are transparent. (4) ESF.get_result returns a private deep copy.",
+        note=TRUST + "; bounded history (<= 2 earlier requests) instead of an arbitrary pre-state: the cache key has no other state, "
+             "one earlier entry suffices for a collision; bit-for-bit float equality is outside (reals).",
+        technique="symbolic execution of the real cache/ordering code with symbolic dict keys (z3 decisions) + path exploration",
+        design="§4 C14",
+    ),
     "C06": dict(
         text="The REAL Runner.__init__ (compatibility.update, eko Atlas, SF.load -> real ESF) and the real Combiner run on symbolic "
              "masses, threshold ratios and Q2 with np.digitize replaced by its documented meaning; on every feasible path z3 proves "
